@@ -1,6 +1,7 @@
 package main
 
 import (
+	"bytes"
 	"fmt"
 	"os"
 	"path/filepath"
@@ -94,6 +95,9 @@ func c15geom(es []Ent, dl uint64, depth, fan int, gzipped bool, pad int) Hdr {
 func c15written(t *toks) (string, []string) {
 	writer, dedup, n := t.s(), t.n() == 1, t.n()
 	pool := [][]byte{[]byte("ocean-ocean"), []byte("land"), []byte("coast-line-x")}
+	if n > 0 && n%7 == 3 { // real archives hold tiles of tens of kilobytes next to tiny ones
+		pool[1] = bytes.Repeat([]byte("big-tile-"), 8000) // 72,000 bytes
+	}
 	var tiles []tileKV
 	for i := 0; i < n; i++ {
 		id, c := t.u(), t.n()
@@ -155,7 +159,7 @@ func c15written(t *toks) (string, []string) {
 func c15(r *rng, tier string, o *out) {
 	n := 60
 	if tier == "thorough" {
-		n = 1500
+		n = 4000
 	}
 	for c := 0; c < n/2; c++ {
 		// tiles around a zoom boundary: the Hilbert end of zoom z and the start of zoom z+1
